@@ -21,14 +21,14 @@ from coqgen import coq_str, coq_byte, coq_opt, is_model_str
 
 use_repo()
 import hl7apy
-from hl7apy.core import Segment, Field, Component, SubComponent, Element, ElementProxy
+from hl7apy.core import Segment, Field, Component, SubComponent, Element, ElementProxy, Message, Group
 from hl7apy.exceptions import HL7apyException
 import segcorr
 
 STRICT, TOLERANT = 1, 2
 P61 = 2 ** 61 - 1                  # folding modulo a Mersenne number is cheap inside Coq
 
-CLS_LETTER = {'Segment': 'S', 'Field': 'F', 'Component': 'C', 'SubComponent': 's'}
+CLS_LETTER = {'Segment': 'S', 'Field': 'F', 'Component': 'C', 'SubComponent': 's', 'Message': 'M', 'Group': 'G'}
 
 
 def hash_str(s):
@@ -129,6 +129,14 @@ class Impl(object):
         k = op[0]
         if k == 'newseg':
             I.append(Segment(op[2], version=self.v, validation_level=op[1]))
+        elif k == 'newmsg':
+            m = Message(op[2], version=self.v, validation_level=op[1])
+            m.msh.msh_7 = '20200101'          # the constructor stamps the current time
+            I.append(m)
+        elif k == 'addsegment':
+            I.append(I[op[1]].add_segment(op[2]))
+        elif k == 'addgroup':
+            I.append(I[op[1]].add_group(op[2]))
         elif k == 'newfield':
             I.append(Field(op[2], datatype=op[3], version=self.v, validation_level=op[1]))
         elif k == 'newcomp':
@@ -244,7 +252,7 @@ class Impl(object):
                 tail = 'N(%s,%d,%d)' % ('inf' if x.allow_infinite_children else 'fin', x._last_allowed_child_index,
                                         x._last_child_index)
             out.append('%s:%s(%s,%s,%d)P%sT%sL[%s]I{%s}X{%s}%s\n' % (
-                num(x), CLS_LETTER.get(cn, '?'), dopt(x.name), dopt(None if cn == 'Segment' else x.datatype),
+                num(x), CLS_LETTER.get(cn, '?'), dopt(x.name), dopt(None if cn in ('Segment', 'Message', 'Group') else x.datatype),
                 x.validation_level, '-' if x._parent is None else num(x._parent),
                 '-' if getattr(x, '_traversal_parent', None) is None else num(x._traversal_parent),
                 nums(ch.list), dmap(ch.indexes), dmap(ch.traversal_indexes), tail))
@@ -348,6 +356,7 @@ class Gen(object):
         self.codes = []
         self.segname = rng.choice(self.SEGMENTS.get(version, ['PID', 'OBX', 'ZXX']))
         self.pool = {}
+        self.pending = []
 
     # -- structure knowledge
     def child_rows(self, x):
@@ -463,6 +472,25 @@ class Gen(object):
 
     # -- one step
     def gen_op(self):
+        if self.pending:
+            return self.pending.pop(0)
+        op = self.gen_op_()
+        rng = self.rng
+        # read first, then write through the same chain (or to an element in the middle of it): what the
+        # read created lazily must not change what the write produces
+        if op[0] in ('readvalue', 'len') and rng.random() < .45:
+            names = op[2]
+            x = op[1]
+            X = self.impl.I[x]
+            if len(names) >= 2 and rng.random() < .6:
+                cut = rng.randint(1, len(names) - 1) if rng.random() < .5 else len(names)
+            else:
+                cut = len(names)
+            txt = '2020' if X.validation_level == STRICT else rng.choice(['w', 'v^u', 'q'])
+            self.pending.append(['setattr', x, names[:cut], ['t', txt]])
+        return op
+
+    def gen_op_(self):
         rng = self.rng
         I = self.impl.I
         parents = [i for i, y in enumerate(I) if isinstance(y, (Segment, Field, Component))]
@@ -470,8 +498,21 @@ class Gen(object):
         lvl = self.lvl if rng.random() < .9 else self.other_lvl()
         if not segs or (len(segs) < 2 and rng.random() < .12):
             return ['newseg', self.lvl if rng.random() < .95 else self.other_lvl(), self.segname]
+        if self.profile == 'reps' and not getattr(self, 'seeded', False):
+            # the 'reps' profile starts from a child with four repetitions (A~B~C~D), so that inner repetitions
+            # can be addressed from both ends
+            self.seeded = True
+            X = I[segs[0]]
+            rows = [r for r in self.child_rows(X) if X.repetitions.get(r[0], (0, 1))[1] != 1]
+            if rows:
+                row = rng.choice(rows[:4])
+                self.pool[(X.classname, X.name, None)] = [row] + [r for r in self.names_for(X) if r[0] != row[0]][:2]
+                for j in range(4):
+                    self.pending.append(['setindex', segs[0], [row[0].lower()], j,
+                                         ['t', gen_text(rng, row[1], 0, self.impl.ec, False)]])
+                return self.pending.pop(0)
         # the target: mostly a segment in the 'segment' profile, anything in the 'deep' profile
-        if self.profile == 'segment' and rng.random() < .8:
+        if self.profile in ('segment', 'reps') and rng.random() < .8:
             x = rng.choice(segs)
         else:
             x = rng.choice(parents)
@@ -490,6 +531,9 @@ class Gen(object):
         p_have = .9 if kind in ('grab', 'delindex', 'delattr') else .5
         if have and rng.random() < p_have:
             nm = rng.choice(have)
+            multi = [n for n in have if have.count(n) >= 2]
+            if multi and kind in ('setindex', 'delindex', 'grab') and rng.random() < .7:
+                nm = rng.choice(multi)
             for cand in rows + self.child_rows(X):
                 if cand[0] == nm:
                     row = cand
@@ -500,6 +544,15 @@ class Gen(object):
             i = rng.randrange(0, n_have)
         else:
             i = rng.choice([n_have, n_have, n_have + 1, 0])
+        if kind in ('setindex', 'delindex', 'grab') and n_have and rng.random() < .3:
+            # Python's negative indexes: -1 is the last repetition; one beyond the first is absent
+            i = -rng.randint(1, n_have + 1)
+        if kind == 'setindex' and n_have < 4 and rng.random() < .35:
+            # grow the repetitions of a repeatable child (negative indexes need something to count from)
+            i = n_have
+        if kind in ('setindex', 'delindex') and n_have >= 3 and rng.random() < .5:
+            # an inner repetition addressed from the end: -2 ... -n
+            i = -rng.randint(2, n_have)
         d = self.depth_of(X)
         if kind == 'setattr':
             return ['setattr', x, [name], self.value_for(X, row)]
@@ -652,6 +705,151 @@ class Gen(object):
         return self
 
 
+class MsgGen(object):
+    """Random histories on Message / Group parents (ADT_A01, ORU_R01, OML_O33 ...): segments and groups are
+    assigned, replaced, deleted and copied by name / index / proxy, read lazily and then written.  These
+    parents are outside the Coq model: the histories are judged by the implementation-side oracles only."""
+
+    STRUCTS = ['ADT_A01', 'ORU_R01', 'OML_O33']
+
+    def __init__(self, rng, version, lvl, nsteps=12):
+        self.rng = rng
+        self.v = version
+        self.lvl = lvl
+        self.nsteps = nsteps
+        self.impl = Impl(version)
+        self.ops = []
+        self.codes = []
+        self.pending = []
+        self.struct = rng.choice(self.STRUCTS)
+
+    def rows(self, x):
+        sbn = x.__dict__.get('structure_by_name')
+        out = []
+        if isinstance(sbn, dict):
+            for k in x.ordered_children:
+                out.append((k, sbn[k]['cls'].__name__, sbn[k]['ref']))
+        return out
+
+    def seg_text(self, name, n):
+        return '%s|%d' % (name, n) if name != 'MSH' else None
+
+    def group_text(self, x, gname, gref):
+        """ER7 of a few leading segments of a group"""
+        rng = self.rng
+        segs = []
+        for row in gref[1][:3]:
+            if row[3] == 'SEG' and rng.random() < .8:
+                segs.append('%s|%d' % (row[0], rng.randint(1, 9)))
+        if not segs:
+            segs = ['%s|1' % gref[1][0][0]] if gref[1][0][3] == 'SEG' else []
+        return '\r'.join(segs)
+
+    def gen_op(self):
+        if self.pending:
+            return self.pending.pop(0)
+        rng = self.rng
+        I = self.impl.I
+        msgs = [i for i, y in enumerate(I) if isinstance(y, Message)]
+        if not msgs or (len(msgs) < 2 and rng.random() < .25):
+            return ['newmsg', self.lvl, self.struct]
+        tops = [i for i, y in enumerate(I) if isinstance(y, (Message, Group))]
+        x = rng.choice(tops) if rng.random() < .3 else rng.choice(msgs)
+        X = I[x]
+        rows = [r for r in self.rows(X) if r[0] != 'MSH']
+        if not rows:
+            return ['lenlist', x]
+        have = [c.name for c in X.children.list if c.name and c.name != 'MSH']
+        row = rng.choice(rows[:7])
+        if have and rng.random() < .5:
+            nm = rng.choice(have)
+            row = next((r for r in rows if r[0] == nm), row)
+        name, cls, ref = row
+        n_have = len(X.children.indexes.get(name, []))
+        i = rng.randrange(0, n_have) if n_have and rng.random() < .7 else rng.choice([n_have, n_have + 1, 0])
+        if n_have and rng.random() < .2:
+            i = -rng.randint(1, n_have + 1)
+        text = self.seg_text(name, rng.randint(1, 9)) if cls == 'Segment' else self.group_text(X, name, ref)
+        kind = rng.choices(['set', 'setidx', 'addhelper', 'del', 'delidx', 'copy', 'setel', 'chain', 'readchain', 'grab',
+                            'len', 'wrong'], [16, 8, 7, 5, 4, 7, 4, 10, 10, 5, 3, 3])[0]
+        nl = name.lower()
+        if kind == 'set' and text:
+            return ['setattr', x, [nl], ['t', text]]
+        if kind == 'setidx' and text:
+            return ['setindex', x, [nl], i, ['t', text]]
+        if kind == 'addhelper':
+            return ['addsegment' if cls == 'Segment' else 'addgroup', x, name]
+        if kind == 'del':
+            return ['delattr', x, [nl]]
+        if kind == 'delidx':
+            return ['delindex', x, [nl], i]
+        if kind == 'copy':
+            others = [j for j in tops if type(I[j]) is type(X)]
+            return ['setattr', x, [nl], ['p', rng.choice(others), nl]]
+        if kind == 'setel' and cls == 'Segment':
+            segs = [j for j, y in enumerate(I) if isinstance(y, Segment) and y.name == name]
+            if segs:
+                return ['setattr', x, [nl], ['e', rng.choice(segs)]]
+            self.pending.append(['setattr', x, [nl], ['e', len(I)]])
+            return ['newseg', self.lvl, name]
+        if kind == 'grab':
+            return ['grab', x, [nl], i]
+        if kind == 'len':
+            return ['len', x, [nl]]
+        if kind == 'wrong' and text:
+            return ['setattr', x, [nl], ['t', 'EVN|9']]
+        # chains below a segment or a group: read lazily, write, or read and then write (to the end of the
+        # chain or to an element in the middle of it)
+        if cls == 'Segment':
+            names = [nl, '%s_%d' % (nl, rng.choice([1, 2, 3, 5]))]
+        else:
+            inner = [r for r in ref[1] if r[3] == 'SEG']
+            if not inner:
+                return ['len', x, [nl]]
+            sname = rng.choice(inner[:3])[0].lower()
+            names = [nl, sname, '%s_%d' % (sname, rng.choice([1, 2, 3]))]
+        txt = '2020' if self.lvl == STRICT else rng.choice(['w', 'EVERYMAN^ADAM', '7'])
+        if kind == 'readchain':
+            cut = rng.randint(2, len(names)) if len(names) > 2 else len(names)
+            if rng.random() < .7:
+                if cut == len(names) or rng.random() < .5:
+                    self.pending.append(['setattr', x, names[:cut], ['t', txt]])
+                else:
+                    # assign a whole segment to the intermediate link
+                    self.pending.append(['setattr', x, names[:cut], ['t', '%s|3' % names[cut - 1].upper()]])
+            return ['readvalue', x, names]
+        return ['setattr', x, names, ['t', txt]]
+
+    def step(self, hook=None):
+        op = self.gen_op()
+        k = len(self.ops)
+        if hook:
+            hook(self.impl, k, op, 'before', None)
+        code, res = self.impl.apply(op)
+        if hook:
+            hook(self.impl, k, op, 'after', (code, res))
+        self.ops.append(op)
+        self.codes.append(code)
+        return op, code, res
+
+    def run(self, hook=None):
+        for _ in range(self.nsteps):
+            self.step(hook)
+        return self
+
+
+def run_message_history(version, ops, hook=None):
+    """replay of a message-level history (implementation only)"""
+    impl = Impl(version)
+    for k, op in enumerate(ops):
+        if hook:
+            hook(impl, k, op, 'before', None)
+        r = impl.apply(op)
+        if hook:
+            hook(impl, k, op, 'after', r)
+    return impl
+
+
 def in_model_domain(ops, obs):
     for o in obs:
         if not is_model_str(o):
@@ -677,6 +875,10 @@ def coq_names(ns):
 
 def coq_nat(n):
     return '%d%%nat' % n
+
+
+def coq_z(n):
+    return '(%d)%%Z' % n
 
 
 def coq_val(v):
@@ -707,13 +909,13 @@ def coq_op(op):
     if k == 'setattr':
         return 'OSetAttr %s %s %s' % (coq_nat(op[1]), coq_names(op[2]), coq_val(op[3]))
     if k == 'setindex':
-        return 'OSetIndex %s %s %s %s' % (coq_nat(op[1]), coq_names(op[2]), coq_nat(op[3]), coq_val(op[4]))
+        return 'OSetIndex %s %s %s %s' % (coq_nat(op[1]), coq_names(op[2]), coq_z(op[3]), coq_val(op[4]))
     if k == 'setlistindex':
         return 'OSetListIndex %s %s %s' % (coq_nat(op[1]), coq_nat(op[2]), coq_val(op[3]))
     if k == 'delattr':
         return 'ODelAttr %s %s' % (coq_nat(op[1]), coq_names(op[2]))
     if k == 'delindex':
-        return 'ODelIndex %s %s %s' % (coq_nat(op[1]), coq_names(op[2]), coq_nat(op[3]))
+        return 'ODelIndex %s %s %s' % (coq_nat(op[1]), coq_names(op[2]), coq_z(op[3]))
     if k == 'dellistindex':
         return 'ODelListIndex %s %s' % (coq_nat(op[1]), coq_nat(op[2]))
     if k == 'remove':
@@ -721,7 +923,7 @@ def coq_op(op):
     if k == 'addhelper':
         return 'OAddHelper %s %s' % (coq_nat(op[1]), coq_str(op[2]))
     if k == 'grab':
-        return 'OGrab %s %s %s' % (coq_nat(op[1]), coq_names(op[2]), coq_nat(op[3]))
+        return 'OGrab %s %s %s' % (coq_nat(op[1]), coq_names(op[2]), coq_z(op[3]))
     if k == 'grablist':
         return 'OGrabList %s %s' % (coq_nat(op[1]), coq_nat(op[2]))
     if k == 'read':
